@@ -882,6 +882,18 @@ def gen_gauss(r):
             pt = real_value(list(ta.inputs[n].shape))
             if pt:
                 d = g.emit({"op": "delta", "name": n, "point": pt})
+                if d and len(real_in) >= 2 and r.random() < 0.4:
+                    # a joint Delta over two names; integrate / marginalise ONE of them
+                    m = r.choice([k for k in real_in if k != n])
+                    pt2 = real_value(list(ta.inputs[m].shape))
+                    d2 = g.emit({"op": "delta", "name": m, "point": pt2}) if pt2 else None
+                    joint = g.emit({"op": "binary", "fn": "add", "a": d, "b": d2}) if d2 else None
+                    if joint:
+                        vals.append(joint)
+                        g.emit({"op": "integrate", "a": joint, "b": a, "vars": [n]})
+                        ja = g.emit({"op": "binary", "fn": "add", "a": joint, "b": a})
+                        if ja:
+                            g.emit({"op": "reduce_real", "fn": "logaddexp", "a": ja, "vars": [r.choice([n, m])]})
                 if d:
                     if r.random() < 0.5:
                         out = g.emit({"op": "binary", "fn": "add", "a": d, "b": a})
@@ -1099,7 +1111,16 @@ def corpus(r):
         w = g.emit({"op": "tensor", "inputs": [[b, size]], "shape": [size], "dtype": "float", "data": g.data("real", size)})
         term = None
         if kind in ("delta", "joint") and pt:
-            term = g.emit({"op": "delta", "name": diag, "point": pt, "ld": w if r.random() < 0.5 else None})
+            other = r.choice([n for n in NAMES if n != b])
+            ld = r.choice(
+                [
+                    None,
+                    w,  # batched over the plate
+                    g.emit({"op": "tensor", "inputs": [], "shape": [], "dtype": "float", "data": g.data("real", 1)}),  # constant
+                    g.emit({"op": "tensor", "inputs": [[other, g.sizes[other]]], "shape": [g.sizes[other]], "dtype": "float", "data": g.data("real", g.sizes[other])}),
+                ]
+            )
+            term = g.emit({"op": "delta", "name": diag, "point": pt, "ld": ld})
             if kind == "joint" and term and w:
                 gy = g.emit({"op": "gaussian", "batch": [[b, size]], "reals": [["y", []]], "mats": [round(r.gauss(0, 1), 3) for _ in range(size)], "locs": [round(r.gauss(0, 1), 3) for _ in range(size)]})
                 term = g.emit({"op": "binary", "fn": "add", "a": term, "b": w})
